@@ -26,10 +26,11 @@ MANIFEST = {
     "text": "decides D1 (exactly-once, correctly placed increment in the 3 incremental start functions and the 24 "
             "C++ do_encrypt/do_decrypt methods, never on a failed decryption), D2 (the increment function adds "
             "one to the 128-bit big-endian integer: loop coverage from scalar evolution plus an exhaustive check "
-            "of the per-byte carry transfer function) and D3 (set_counter and the 12 set_nonce methods store the "
+            "of the per-byte carry transfer function), D3 (set_counter and the 12 set_nonce methods store the "
             "documented 16 bytes for a symbolic counter / symbolic nonces of length 0..40, decided by "
-            "interpreting the helper over bit expressions); the functional clause (packet i under nonce+i) is "
-            "decided for bounded shapes by C01.M / C02.D6 sessions",
+            "interpreting the helper over bit expressions) and D4 (bounded shapes, all key/data values: in a "
+            "receiver session packet i is accepted under nonce+i also after a forged packet was rejected; the "
+            "sender side is C01.M multipacket)",
     "note": "trusted: clang lowering, irdump and LLVM scalar evolution for the loop's index recurrence; the "
             "induction from the per-byte transfer function to the 128-bit addition is the usual ripple-carry "
             "argument",
